@@ -367,6 +367,12 @@ func (kgdb *KVInterfaceGDB) GetOutChannel(ctx context.Context, reqChan chan gdbi
 						if len(edgeLabels) == 0 || contains(edgeLabels, label) {
 							vkey := VertexKey(kgdb.graph, dst)
 							if etype == edgeSingle {
+								if emitNull {
+									//an edge to a vertex that is not there leads nowhere (as in GetInChannel)
+									if _, err := it.Get(vkey); err != nil {
+										continue
+									}
+								}
 								vertexChan <- elementData{
 									data: vkey,
 									req:  req,
